@@ -14,7 +14,7 @@
     c01 t5mir <hex sexp>                     →  outside | <fn 0> || <fn 1> || …   (as `c08 mir`)
         the structured MIR of every function of the resolved program, laid out as a CFG
     c01 lir <hex text>                       →  the LIR lowering model on real MIR (see Driver/C01Lir.lean)
-    c01 lirrun <hex text> <arg>… [| <arg>…]… →  outside | m=<answer> l=<answer> [| …]
+    c01 lirrun <hex text> <arg>… [| <arg>…]… →  outside | m=<answer> l=<answer> c=<answer> [| …]
         the semantics of Props/C01Lir on the compiler's real MIR: `main` of the MIR program run by
         `C01Lir.mRun`, and the LIR the model makes of it run by `C01Lir.lRun`, on every tuple
     c01 dce <cfg>                            →  ok <cfg> | panic | fuel
@@ -44,6 +44,7 @@ import RotoV.Model.C01Resolve
 import RotoV.Model.C01MirRun
 import Driver.C08
 import Driver.C01Lir
+import RotoV.Model.C01Cg
 
 namespace Driver.C01
 open RotoV hiding Ty BinOp
@@ -314,7 +315,17 @@ def handleLirRun (hexText : String) (tuples : List (List String)) : String :=
               let show1 := fun (r : Option TraceSpec.Val) => match r with
                 | some w => "ok_" ++ (showTVal w).replace " " "_"
                 | none => "none"
-              s!"m={show1 (C01Lir.mRun P 4000 "main" vs')} l={show1 (C01Lir.lRun L 4000 "main" vs')}"
+              -- the code-generation layer (Props/C01Cg): the emitted code of the model's LIR, run on the SSA encodings
+              let cres : String :=
+                match C01Cg.cgProg L, vs'.mapM C01MirRun.cvOf with
+                | some C, some cs =>
+                  match C01Cg.cRun C 4000 "main" cs with
+                  | some (some c) => show1 (C01MirRun.decode c)
+                  | some none => show1 (some .unit)
+                  | none => "none"
+                | none, _ => "outside"
+                | _, none => "bad-arg"
+              s!"m={show1 (C01Lir.mRun P 4000 "main" vs')} l={show1 (C01Lir.lRun L 4000 "main" vs')} c={cres}"
         " | ".intercalate answers
 
 def handle (args : List String) : String :=
